@@ -81,9 +81,117 @@ fn snap_sorted(m: &HashMap<String, ReplicatedValue>) -> Vec<(String, MRv)> {
     v
 }
 
+
+/// every place of the anchored files that CREATES or ADVANCES a stamp, counted in the source the
+/// binary was built against and compared with the op table of the model (`Model/Replica.lean`):
+/// a new `tick()` / `update()` / clock construction / direct assignment to `.time` that no model
+/// op accounts for changes a count and fails the check
+fn stamp_sites(out: &mut Out) {
+    use crate::c06msg::{non_test, read_src, repo_dir};
+    // (file, pattern, expected count, model op(s) that transcribe these sites)
+    let table: [(&str, &str, usize, &str); 12] = [
+        ("src/replication/lattice.rs", ".tick()", 2, "LwwRegister::set / delete tick the clock they are handed → Lww.set / Lww.delete with `clock.tick` in recordWrite, recordDelete, hashSetStep, hashDelStep"),
+        ("src/replication/lattice.rs", ".time += ", 1, "LamportClock::tick → Stamp.tick"),
+        ("src/replication/lattice.rs", ".time = ", 1, "LamportClock::update → Stamp.update"),
+        ("src/replication/lattice.rs", "LamportClock::new(", 1, "LwwRegister::new → Lww.new (time 0)"),
+        ("src/replication/state/replicated_value.rs", ".tick()", 1, "ReplicatedValue::delete, hash arm: one fresh stamp for every field → recordDelete (.hash)"),
+        ("src/replication/state/replicated_value.rs", "LamportClock::new(", 2, "ReplicatedValue::new / with_crdt → RV.new (stamp (0, rid))"),
+        ("src/replication/state/replicated_value.rs", ".time = ", 0, "no direct assignment to a clock time (self.timestamp = *clock copies a ticked clock)"),
+        ("src/replication/state/shard_state.rs", ".update(", 1, "apply_remote_delta → Shard.applyRemote (clock := update clock delta.ts)"),
+        ("src/replication/state/shard_state.rs", "LamportClock::new(", 1, "ShardReplicaState::new → Shard.init (clock (0, rid))"),
+        ("src/replication/state/shard_state.rs", ".tick()", 0, "the shard never ticks directly: through ReplicatedValue / LwwRegister"),
+        ("src/production/replicated_shard_actor.rs", "lamport_clock.update(", 1, "ApplyRecoveredState → Shard.applyRecovered (clock := update clock value.ts)"),
+        ("src/production/replicated_shard_actor.rs", ".tick()", 0, "the actor never ticks a Lamport clock itself"),
+    ];
+    let mut rows = Vec::new();
+    for (file, pat, want, op) in table {
+        let Some(src) = read_src(file) else {
+            out.violation("C08:coverage:source-scan-failed", "an anchored source file could not be read from the tree the harness was built against", json!({"file": file, "tree": repo_dir()}));
+            continue;
+        };
+        let lib = non_test(&src);
+        let lib = match lib.find("#[cfg(kani)]") { Some(i) => &lib[..i], None => lib };
+        let got = lib.lines().filter(|l| !l.trim_start().starts_with("//")).map(|l| l.matches(pat).count()).sum::<usize>();
+        rows.push(json!({"file": file, "pattern": pat, "sites": got, "model": op}));
+        if got != want {
+            out.violation(
+                &format!("C08:coverage:stamp-site-not-modelled:{}:{}", file.rsplit('/').next().unwrap_or(file), pat.trim()),
+                "the number of places that create / advance a Lamport stamp differs from the op table of the model: a new site must get a model op (or the table must say why not)",
+                json!({"file": file, "pattern": pat, "expected": want, "found": got, "model_op": op}),
+            );
+        }
+    }
+    out.extra.insert("stamp_sites(from the source)".into(), json!(rows));
+}
+
+/// the Lamport time at the u64 boundary on a real `ShardReplicaState`: a peer's delta stamped
+/// MAX-2 / MAX-1 / MAX, then local writes.  Which arithmetic the build uses (checked: panic,
+/// wrapping: release) is observed, told to the model (`KU`), and the property is evaluated:
+/// a write acknowledged after the node stored a value must be stamped above it.
+fn clock_boundary(out: &mut Out) {
+    use std::panic::{catch_unwind, AssertUnwindSafe};
+    let prev = std::panic::take_hook();
+    std::panic::set_hook(Box::new(|_| {}));
+    // which profile was the dependency built with?
+    let checked = catch_unwind(|| {
+        let mut c = redis_sim::replication::lattice::LamportClock { time: std::hint::black_box(u64::MAX), replica_id: ReplicaId::new(1) };
+        c.tick().time
+    })
+    .is_err();
+    let mut rows = Vec::new();
+    for back in [3u64, 2, 1, 0] {
+        let t = u64::MAX - back;
+        let mut st = ShardReplicaState::new(ReplicaId::new(1), ConsistencyLevel::Eventual);
+        let v = MRv { crdt: MCrdt::Lww(MLww { v: Some(b"peer".to_vec()), t, r: 2, tomb: false }), vc: None, exp: None, t, r: 2, rf: None };
+        let mut ops: Vec<String> = vec![format!("U {}", t)];
+        let mut outcome: Vec<String> = Vec::new();
+        let r = catch_unwind(AssertUnwindSafe(|| st.apply_remote_delta(ReplicationDelta::new("k".into(), v.to_real(), ReplicaId::new(2)))));
+        let mut dead = r.is_err();
+        outcome.push(if dead { "overflow".into() } else { st.lamport_clock.time.to_string() });
+        out.op(format!("KU {} 0 1 {}", checked as u8, ops.join(" ")), outcome.last().unwrap().clone());
+        let mut stale: Option<(u64, u64)> = None;
+        for w in 0..2 {
+            if dead {
+                break;
+            }
+            ops.push("T".into());
+            let r = catch_unwind(AssertUnwindSafe(|| st.record_write("k".into(), SDS::from_str("mine"), None)));
+            match r {
+                Ok(d) => {
+                    let ts = d.value.timestamp.time;
+                    outcome.push(ts.to_string());
+                    if ts <= t {
+                        stale = Some((ts, t));
+                    }
+                }
+                Err(_) => {
+                    dead = true;
+                    outcome.push("overflow".into());
+                }
+            }
+            out.op(format!("KU {} 0 {} {}", checked as u8, ops.len(), ops.join(" ")), outcome.last().unwrap().clone());
+            let _ = w;
+        }
+        out.count("clock-boundary");
+        rows.push(json!({"peer_stamp": format!("u64::MAX-{}", back), "outcomes(update, write, write)": outcome.clone()}));
+        if dead || stale.is_some() {
+            out.violation(
+                "C08:clock:u64-overflow",
+                "after a peer's delta stamped at the top of the u64 range the node cannot stamp its next write above what it stored: the checked build panics in LamportClock::update / tick (the shard actor dies), the release build wraps the clock to 0 (the write is stamped below the stored value and loses everywhere)",
+                json!({"peer_delta_time": format!("u64::MAX-{}", back), "arithmetic": if checked { "checked (overflow-checks = true, the harness profile)" } else { "wrapping (release)" }, "outcomes": outcome, "stale": stale.map(|(a, b)| vec![a, b])}),
+            );
+        }
+    }
+    std::panic::set_hook(prev);
+    out.extra.insert("clock_u64_boundary".into(), json!({"arithmetic_of_this_build": if checked { "checked" } else { "wrapping" }, "cases": rows}));
+    out.case("clock-boundary", true);
+}
+
 pub fn run(a: &Args) {
     let mut out = Out::new(&a.out);
     let mut rng = Rng::new(a.seed);
+    stamp_sites(&mut out);
+    clock_boundary(&mut out);
     let rt = tokio::runtime::Builder::new_current_thread().enable_all().build().unwrap();
     rt.block_on(async {
         // corpus first: the DESIGN.md §6.1 history (checkpoint-only recovery, then a write)
